@@ -1,0 +1,9 @@
+//go:build !verif
+// +build !verif
+
+package util
+
+import "time"
+
+// twSleep waits one tick of the wheel (verification hook point, see time_wheel_verif_on.go).
+func twSleep(tw *TimeWheel) { time.Sleep(tw.tick) }
